@@ -45,6 +45,30 @@ def run(ck, P):
         freed = [ex.at(x, x.args[0]) for x in frees]
         ck.ob("C11.2-DTOR-TARGET", rn.site("dtor arg"), any(arg == fr + "->userptr" for fr in freed),
               "destructor receives '%s'; node freed afterwards: %s" % (arg, freed))
+    # the node leaves the tree before its payload is destroyed: a destructor that re-enters the set must not find (or hang a new
+    # node under) the element that is going away, and nothing read before the callback may be written into the slot after it
+    slot = rn.params[1]["name"]
+    slot_ct = (rn.params[1].get("ct") or rn.params[1].get("t") or "?").replace(" ", "")
+
+    def _slot_store(ev):
+        if ev.kind != "assign" or ev.lhs is None:
+            return False
+        l_ = strip(ev.lhs)
+        return l_ is not None and l_["k"] == "un" and l_.get("op") == "*" and strip(l_["e"]) is not None \
+            and strip(l_["e"])["k"] == "var" and (strip(l_["e"]).get("name") == slot or
+                                                   (strip(l_["e"]).get("ct") or "").replace(" ", "") == slot_ct)   # a helper's copy of the slot
+    stores = [ev for ev in rn.events() if _slot_store(ev)]
+    ck.need(stores, "remove_node no longer stores through its slot parameter")
+    INu = rules.tag_analysis(rn, lambda st, ev: (st | {"unlinked"}) if _slot_store(ev) else st, must=True)
+    for d in dts:
+        before = rn.state_before(INu, d, lambda st, ev: (st | {"unlinked"}) if _slot_store(ev) else st)
+        late = [x for x in stores if rules.may_precede(rn, d, x)]
+        ck.ob("C11.2-DTOR-TARGET", rn.site("unlinked before destroyed"), before is not None and "unlinked" in before and not late,
+              "the slot '*%s' is re-pointed on every path before the destructor runs and never after it" % slot
+              if (before is not None and "unlinked" in before and not late) else
+              ("the destructor at line %d runs while the node is still linked through '*%s'%s: a destructor that re-enters the set finds the "
+               "dying element, and a node it inserts below it is overwritten by the late splice"
+               % (d.line, slot, (" (slot written after it at line %d)" % late[0].line) if late else "")))
     copies = []
     exd = rules.Expander(rn, stable=False)    # values at definition time; the ordering is checked explicitly below
     for ev in rules.field_stores(rn, "_elem", "userptr"):
